@@ -28,6 +28,7 @@ ENTRY = [UPD + "::auto_add_nodes", UPD + "::auto_delete_free_nodes", UPD + "::ch
          MIG + "::migrate_slots_to_scale_down", MS + "::auto_change_node_number"]
 
 MUTANTS = [
+    {"name": "running-test-all-halves", "file": "src/broker/migrate.rs", "old": "            .any(|chunk| chunk.migrating_slots.iter().any(|slots| !slots.is_empty()));\n        if running_migration {", "new": "            .any(|chunk| chunk.migrating_slots.iter().all(|slots| !slots.is_empty()));\n        if running_migration {", "expect": "C10.D1:existential"},
     {"name": "change_config-no-guard", "file": "src/broker/update.rs", "old": "                if cluster.is_migrating() {\n                    return Err(MetaStoreError::MigrationRunning);\n                }\n\n                let mut cluster_config", "new": "                let mut cluster_config", "expect": "C10.D1:change_config"},
     {"name": "release-ignores-migrating", "file": "src/broker/update.rs", "old": "                    for slots in chunk.migrating_slots.iter() {\n                        if !slots.is_empty() {\n                            return true;\n                        }\n                    }\n                    removed_chunks.push(chunk.clone());", "new": "                    removed_chunks.push(chunk.clone());", "expect": "C10.D2"},
     {"name": "scale-down-ge-to-gt", "file": "src/broker/migrate.rs", "old": "|| new_node_num >= cluster.chunks.len() * CHUNK_NODE_NUM", "new": "|| new_node_num > cluster.chunks.len() * CHUNK_NODE_NUM", "expect": "C10.D3"},
@@ -95,6 +96,7 @@ def run(ctx):
             else:
                 ctx.check(bool(reach), "C10.D1", "%s:proceeds-when-idle" % name, site(b), ok="writes reachable when idle", bad="content writes unreachable even when no migration is running")
     _check_running_tasks(ctx)
+    _existential_guards(ctx)
     _is_migrating(ctx)
     _release(ctx)
     _scale_down_args(ctx)
@@ -287,3 +289,48 @@ def _cleanup_first(ctx):
                     if agg_sites(pb, ERR, "FreeNodeNotFound", cleanup=True):
                         ok = True
     ctx.check(ok, "C10.D4", "cleanup-tolerates-only-FreeNodeNotFound", site(b), ok="only FreeNodeNotFound is ignored", bad="the cleanup result is not compared with FreeNodeNotFound")
+
+
+QUANT = ("any", "all", "find", "find_map", "position", "filter", "count", "fold", "try_fold", "min", "max", "last", "nth", "take", "skip", "first", "get", "next")
+
+
+def _existential_guards(ctx):
+    """`a migration is running` means: SOME half of SOME chunk has a non-empty migrating_slots list.  Every form of the
+    test (ClusterStore::is_migrating, MetaStoreMigrate::check_running_tasks, the inline any() guards) must be an
+    existential at both levels: `all` at either level, or looking at one element only, lets a migration with a single busy
+    half pass as `idle`"""
+    F = ctx.F
+    units = []
+    for nm in ("broker::store::ClusterStore::is_migrating", MIG + "::check_running_tasks"):
+        b = F.body(nm) if hasattr(F, "body") else F.bodies.get(nm)
+        if b is not None:
+            units.append((nm.rsplit("::", 1)[-1], b, None))
+    for path in ENTRY:
+        b = F.body(path)
+        if b is None:
+            continue
+        for gb, gt, kind in _guard_sites(F, b):
+            if (callee_decl(gt) or "") == "std::iter::Iterator::any":
+                units.append((path.rsplit("::", 1)[-1] + ":inline", b, gt))
+    if not ctx.floor("C10.D1", "migration-running predicates", len(units), 3):
+        return
+    for label, b, term in units:
+        fam = [x for x in F.family(b) if x.kind == "Closure"]
+        if term is not None:
+            # only the closures that belong to this guard: those created for the any() call
+            du = DefUse(b)
+            sl = du.slice_operand(term["args"][1])
+            fam = [x for x in fam if any(n_ == "migrating_slots" for x2 in F.family(x) for bb_, i_, s_ in x2.assigns() for a_, n_ in place_fields(s_["rv"].get("p") or {"p": []}))] or fam
+        calls = []
+        bodies = [b] + fam if term is None else fam + [b]
+        for x in ([b] if term is None else []) + fam:
+            for bb, t in x.calls():
+                d = callee_decl(t) or ""
+                if d.startswith("std::iter::Iterator::") or d.startswith("core::slice::"):
+                    calls.append((d.rsplit("::", 1)[-1], x, bb))
+        if term is not None:
+            calls.append(("any", b, 0))
+        anys = [c for c in calls if c[0] == "any"]
+        others = [c for c in calls if c[0] in QUANT and c[0] not in ("any", "next")]
+        ctx.check(len(anys) >= 2 and not others, "C10.D1", "existential:%s" % label, site(others[0][1], others[0][2]) if others else site(b), ok="any(any(non-empty)) over chunks and halves",
+                  bad="the migration-running test in %s is not an existential over all chunk halves (quantifiers used: %s): a migration with one busy half can be taken for idle and a scaling request accepted" % (label, sorted({c[0] for c in calls})))
